@@ -94,7 +94,7 @@ def strat_inproc(draw):
         else:
             cmd = draw(argv_gen.deterministic_numeric_command())
             labels.append('deterministic-family')
-        chain = draw(argv_gen.tchain(max_len=2)) if tool == 'cnfgen' else []
+        chain = draw(argv_gen.tchain(max_len=2, allow_expanding=cmd[0] not in argv_gen.WIDE)) if tool == 'cnfgen' else []
         out = draw(st.sampled_from(argv_gen.OUTPUT_OPTS))
         if tool == 'pbgen':
             out = [t for t in out if t not in ('dimacs',)]
